@@ -22,7 +22,8 @@ pub mod qmodel;
 pub enum RubKind { None, Exact, Slack(u64) }
 /// state ranking variants
 #[derive(Clone, Copy, Debug, PartialEq, Eq, Hash)]
-pub enum RankKind { Natural, Reverse, Random(u64) }
+/// `Flat`: every pair of states compares `Equal` (a legal ranking: many ties among the candidates of a layer)
+pub enum RankKind { Natural, Reverse, Random(u64), Flat }
 /// dominance variants
 #[derive(Clone, Copy, Debug, PartialEq, Eq, Hash)]
 pub enum DomKind { None, Exact, Weak }
